@@ -30,6 +30,10 @@ QUICK_SHARDS = 4
 LINE_BUDGET = 3_000_000
 
 rtree = sut.load("rtree")
+_PROBE_BOXES = [(0, (0.0, 0.0, 100.0, 0.0)), (1, (10.0, 30.0, 20.0, 40.0)), (2, (80.0, 2.0, 90.0, 8.0))]
+OPTION_PROBES = [(rtree.Index, ["bboxes"], [_PROBE_BOXES]),
+                 (rtree.Index.intersection, ["self", "bbox"], lambda: [rtree.Index(list(_PROBE_BOXES)), (82.0, 3.0, 85.0, 5.0)])]
+
 
 
 def overlaps(box, q):
